@@ -18,7 +18,8 @@ add("C08", "reference-model oracle (bin-by-bin tilt geometry) + icontract postco
     "giving a range to an alignment model, mask_missing_wedge) is compared bin by bin with keep <=> the physical "
     "frequency R(k/shape) lies between the two tilt planes, over all side-parity classes (thorough: all 512 shapes in "
     "[1..8]^3), cube-symmetry and random orientations, 12+ tilt ranges, both axes; DC, k->-k symmetry, union and "
-    "realness are asserted. Held = no decided bin disagreed in this run.",
+    "realness are asserted; models are also built through Model.with_params(tilt_range=...) and the rarely used Backend "
+    "helper. Held = no decided bin disagreed in this run.",
     "Bins within 1e-5 of a wedge plane are undecided (float32 normals). On an even-axis Nyquist plane the stored index "
     "-N/2 aliases +N/2: the mask must match the geometry of one alias and symmetry is not judged there (the two clauses "
     "of the statement conflict on those bins).",
@@ -28,7 +29,9 @@ add("C11", "law checking against explicit scipy-Rotation algebra + icontract cla
     "Batches mixing generic, axis-aligned, 180-degree and near-0/near-pi orientations are pushed through axes, "
     "composition, copy semantics, random programs of 1-8 rotate/translate calls, all constructor/reader round trips "
     "(12 Euler sequences x intrinsic/extrinsic x both coordinate orders, from_axes with the three axis pairs), affine "
-    "matrices and local sampling grids; each result is compared with float64 reference algebra.",
+    "matrices and local sampling grids; each result is compared with float64 reference algebra. Objects derived from a parent "
+    "(rotate_by, translate, subset, with_features, copy) are then mutated with copy=False: the parent and the caller's arrays "
+    "must not move; rotate_by_euler_angle/from_euler(order='zyx') are compared with scipy for degrees and radians.",
     "Trusted: scipy Rotation composition. from_euler(order='xyz') is compared with the convention pinned by the "
     "repository's own test_euler (P R^-1 P). Tolerances 2e-6 rad / float32 positions.",
     "DESIGN.md section 4 C11")
@@ -38,7 +41,8 @@ add("C12", "history + executable row model (join on unique uid after every step)
     "sequences of 1-8 table operations (subset in six index forms, filter by expression/mask, sort, head, tail, sample, "
     "concat, concat_with, append, with_features, drop_features, group_by, cutby, copy) on acryo.Molecules and on a "
     "pure-Python row model; after every step rows are joined on uid and position, orientation and every feature value "
-    "are compared, partitions are checked, and inconsistent inputs must be rejected or stay consistent.",
+    "are compared, partitions are checked, and inconsistent inputs must be rejected or stay consistent; data-frame views are "
+    "read before and after in-place appends on the same object (stale-cache detection).",
     "sample's choice and the order of equal sort keys are not predicted (subset / key-ordered permutation accepted). "
     "cutby is driven only with non-null cut columns; sort keys are non-null columns.",
     "DESIGN.md section 4 C12")
@@ -69,7 +73,8 @@ add("C15", "metamorphic oracle (binned load == block sum of the b-times larger o
     "Single and batch loaders over numpy/dask tomograms with sides divisible or not by b in 1..6, lazy or eager binning: "
     "the binned image equals reference block sums, scale and molecule translation follow the half-bin rule, "
     "orientations/features and the source loader are untouched, and every sub-volume loaded from the binned loader equals "
-    "the block sum of the corresponding b-times larger sub-volume of the original loader.",
+    "the block sum of the corresponding b-times larger sub-volume of the original loader. Batch loaders mix numpy and dask "
+    "tomograms; dask chunk sizes are not multiples of b.",
     "Metamorphic relation is exact only for identity orientation, molecules on the binned grid and orders 0/1, which is "
     "what the workload generates.",
     "DESIGN.md section 4 C15")
@@ -89,7 +94,8 @@ add("C17", "reference-model oracle per shell + icontract K9/K6, loader-level hal
     "(shell = floor(|f|/dfreq)) on related/unrelated/identical/analytic pairs of any 3-D shape and shell width; range, "
     "symmetry, gain invariance and self-FSC = 1 are asserted; loader/batch/group FSC columns must equal the reference FSC "
     "of the returned half-maps times the mask, half-maps must be the zero-normalised split averages, frames must be "
-    "reproducible per seed; FSCAlignment.score is 1 on the template, bounded and symmetric.",
+    "reproducible per seed; FSCAlignment.score is 1 on the template, bounded and symmetric. Masks are given as array, "
+    "ImageProvider and ImageConverter to single, batch and group loaders; repeated calls alternate shell widths on one shape.",
     "Shells with a bin within 1e-6 of a shell boundary, or holding < 1e-8 of either input's power, are undecided.",
     "DESIGN.md section 4 C17")
 
@@ -99,7 +105,8 @@ add("C01", "analytic ground-truth poses (exactly rendered tomograms) + pose/feat
     "inside max_shifts measured in the input molecule frame; alignment is run through SubtomogramLoader, BatchLoader, "
     "LoaderGroup, align_multi_templates, align_no_template (consensus oracle) and MockLoader for ZNCC/NCC/PCC, orders 1/3, "
     "scales {1,0.5,0.7,2.3}, rotation sets given as Rotation / list / (max,step); output positions (0.25 px), orientations "
-    "(0.05 deg), shift/rotation/score features are compared with the truth.",
+    "(0.05 deg), shift/rotation/score features are compared with the truth; align(template=list) and align(4-D template) "
+    "(implicit multi-template dispatch) and non-cubic boxes under rotation search are included.",
     "Noise-free particles; multi-template species have equal energy (PCC scores are not normalised); template-free "
     "alignment is judged by consensus of 6 molecules (spread <= 0.5 px and <= 0.6 x the input spread).",
     "DESIGN.md section 4 C01")
@@ -109,7 +116,7 @@ add("C04", "analytic displaced copies (exact ground truth) + accuracy oracle per
     "interpolation), d in the closed box [-M, M]^3 incl. integer, fractional and boundary values, M on and off the 1/20 px "
     "grid and anisotropic; all four models, masks none/binary/soft, cutoffs, single/dual-axis tilt models, random "
     "orientations, gains/offsets; |shift - d| is held against the property's own 0.1 / 0.5 px, identity rotation, score, "
-    "fit == align, fitted image superimposes (sign convention).",
+    "fit == align, fitted image superimposes (sign convention); sub-volumes sit on constant backgrounds of 0/0.5/2x the amplitude.",
     "Exceedances of the stated accuracy that match a listed mechanism (wedge bias of ZNCC/NCC, range-edge tail, FSC "
     "integer-grid interpolation) are KNOWN-FINDINGs; their predicates bound the error size, so gross errors are still "
     "violations. Displaced density is kept inside the box and inside masks (non-degenerate templates).",
@@ -120,7 +127,8 @@ add("C05", "hostile-input workload + icontract postcondition K1 on every align c
     "boxes 4-20 (odd/even/non-cubic), max_shifts zero / fractional off-grid / anisotropic / up to 2x box, with and without "
     "rotation search; K1 watches every align call for exceptions-free, finite, in-range results; loader level "
     "(align, align_multi_templates, LoaderGroup.align, scalar/tuple/array/int max_shifts in nm, scales) checks the "
-    "displacement of each molecule in its own frame and the align-d* features against max_shifts.",
+    "displacement of each molecule in its own frame and the align-d* features against max_shifts; template-free alignment of "
+    "mis-centred particles with sub-nm and anisotropic ranges.",
     "FSC is driven with max_shifts <= 3.2 px only (its landscape is a Python triple loop).",
     "DESIGN.md section 4 C05")
 
@@ -129,7 +137,9 @@ add("C06", "ground-truth (template j, rotation k, shift d) planting + candidate-
     "for T in 1..4 and K in {1,2,3,5,7} incl. T>1 with K>1 and T != K, rotation sets as Rotation / list / (max,step): label "
     "= k*T+j, quat = +-q_k, shift = d for align and fit; loader level through align(stack), align_multi_templates, "
     "LoaderGroup.align_multi_templates (list and mapping): label feature = j and pose = truth. Oracle B: every call of the "
-    "model's _optimize is logged; the result must be the logged arg-max (score, shift, label, rotation), also on noise.",
+    "model's _optimize is logged; the result must be the logged arg-max (score, shift, label, rotation), also on noise. "
+    "Candidates with rotation-variant and boolean masks, searches with 375 candidates (labels above 255), single non-identity "
+    "rotations and (max, step) ranges whose end points are exact multiples are included.",
     "Oracle B relies on the model evaluating candidates through its _optimize method (observed T*K calls is asserted).",
     "DESIGN.md section 4 C06")
 
@@ -150,10 +160,10 @@ add("C07", "independent float64 reference pipeline for scores + consistency laws
     "models, orientations) are compared to 1e-4 with Pearson / uncentred correlation of ifftn(W_lp * wedge * fftn(x*mask)); "
     "range, identity = 1, gain and offset invariance; score == landscape centre == zero-range alignment score for ZNCC "
     "and FSC; the arg-max of the (up-sampled 1/2/5x) landscape lies within one sample of the shift align reports for all "
-    "four models; loader.score and construct_landscape rows equal the model's per-sub-volume values.",
+    "four models (also for multi-candidate models with upsample > 1); loader.score and construct_landscape rows equal the "
+    "model's per-sub-volume values; one model object scores many orientations under a wedge (no state carried over).",
     "The wedge mask entering the reference is the one returned by the model's public get_missing_wedge_mask (its geometry "
-    "is C08's job). FSC invariance is judged on inputs whose shells all carry power. Boxes below 8 voxels are skipped for "
-    "the arg-max law (circular PCC landscapes clip).",
+    "is C08's job). FSC invariance is judged on inputs whose shells all carry power. The arg-max law is judged from 6 voxels on.",
     "DESIGN.md section 4 C07")
 
 add("C09", "one-hot identity encoding of split membership + float64 mean reference, icontract K6, scheduler matrix",
@@ -162,8 +172,11 @@ add("C09", "one-hot identity encoding of split membership + float64 mean referen
     "averages; group average[key] = that group's own loader average. With one-hot sub-volumes (molecule i has a delta at "
     "voxel i) the half-maps of average_split reveal the two index sets: disjoint, exhaustive, non-empty for N >= 2, "
     "reproducible per (N, seed) across loaders/schedulers, count-weighted recombination == average; on random data the "
-    "half-maps must equal the means over exactly those sets, also through fsc_with_halfmaps and LoaderGroup.average_split.",
-    "Identity orientation, integer sample coordinates (orders 0/1) so that the loaded blocks are known exactly.",
+    "half-maps must equal the means over exactly those sets, also through fsc_with_halfmaps and LoaderGroup.average_split. "
+    "Batch loaders with rotated molecules, corner_safe, orders 0/1/3 and scales must average to the count-weighted mean of "
+    "single loaders built with the same options.",
+    "Identity orientation, integer sample coordinates (orders 0/1) so that the loaded blocks are known exactly (except in "
+    "the rotated batch law, which compares two loader kinds with each other).",
     "DESIGN.md section 4 C09")
 
 add("C10", "schedule/interleaving perturbation vs synchronous reference: scheduler matrix, shuffled executors, sys.monitoring yield injection, cache audit log, memo fingerprints",
@@ -174,7 +187,8 @@ add("C10", "schedule/interleaving perturbation vs synchronous reference: schedul
     "statement starts of all acryo code and at every call boundary inside the template-cache code with a 1e-6 s switch "
     "interval, seeded task delays, and numpy vs dask tomograms in several chunkings. Oracle: no exception, outputs equal "
     "to the reference, memoised helper arrays unchanged, Backend default restored; declared shapes of lazy arrays equal "
-    "computed shapes for integer/fractional ranges, upsample 1-4, single/multi template.",
+    "computed shapes for integer/fractional ranges (also beyond box/2), upsample 1-4, single/multi template; multi-candidate "
+    "landscapes (landscape-rot) run under threads and injected yields.",
     "Interleavings are sampled, not enumerated: held = no difference on the perturbed runs of this execution (counts of "
     "injected yields, shuffled tasks, distinct signatures in the evidence). Only GIL hand-over points CPython really has "
     "(statement starts, call boundaries) are used. cupy backend absent.",
@@ -185,9 +199,13 @@ add("C18", "exact-SVD reference on planted low-rank stacks over stack chunkings 
     "numpy arrays and as dask arrays chunked along images, space or both, under three schedulers: singular values, "
     "components (up to sign), projections, get_bases, predict and the cluster assignment of two planted groups are compared "
     "with numpy.linalg.svd of the centred masked stack. loader.classify on tomograms with two planted particle classes: "
-    "the label column is integer, attached in molecule order, and nothing else about molecules or source changes.",
-    "Stacks with more than 500 features take the randomised solver whose seed is drawn from numpy's global RNG; the "
-    "planted spectral gap makes its error far below the 2e-3 tolerance.",
+    "the label column is integer, attached in molecule order, and nothing else about molecules or source changes. "
+    "Flat-spectrum (noise-dominated) stacks: singular values exact in the full-solver regime, components judged only where "
+    "singular values are separated, projections == (X - mean) @ reported components. Wedge-masked-difference cases: randomly "
+    "oriented molecules under five tilt models; each PCA input row must equal what a model that saw no other molecule computes.",
+    "Stacks with more than 500 features take the randomised solver whose seed is drawn from numpy's global RNG; with a "
+    "planted spectral gap its error is far below the 2e-3 tolerance; without a gap and more than 20 images it is inexact: "
+    "open finding pca.randomized-solver-inexact (KNOWN-FINDING, bounded predicate).",
     "DESIGN.md section 4 C18")
 
 add("C19", "reference interpreter for generated pipeline expression trees + algebraic/metamorphic laws",
@@ -197,7 +215,8 @@ add("C19", "reference interpreter for generated pipeline expression trees + alge
     "check composition/associativity and result types, currying of provider/converter functions with 0/1/2+ positional "
     "arguments and output validation, scale covariance of seven nm-parameterised converters and from_gaussian, rescaling "
     "providers, the Gaussian provider formula, extensivity/anti-extensivity and [0,1] range of the mask converters, and "
-    "loader.normalize_template/mask/input at the loader's scale.",
+    "loader.normalize_template/mask/input at the loader's scale; from_array tolerance at voxel sizes far from 1 nm and under a "
+    "change of length unit; converters built from ndarray parameters evaluated twice and at two scales (purity).",
     "Leaf pipelines are trusted inside trees (the algebra is judged there); comparisons only at the root (arithmetic on "
     "boolean arrays is numpy's semantics). radius/scale is kept away from integers so one ulp cannot flip a ceil.",
     "DESIGN.md section 4 C19")
@@ -208,6 +227,7 @@ add("C20", "planted-particle ground truth (bijection oracle) + numpy-vs-chunked 
     "float32/float64/uint8/int16 are picked from the numpy array and from dask arrays in six chunkings (halves, irregular, "
     "slabs thinner than the overlap, pencils, cubes, single) under synchronous/threaded/shuffled schedulers: picks must "
     "be one-to-one with the particles (1 px), carry the planted rotation, and positions and scores of the chunked run "
-    "must equal those of the numpy run.",
+    "must equal those of the numpy run. A quarter of the LoG/DoG images are slabs thinner than the overlap depth; template "
+    "matching uses exclusion radii of 5/8/10 px given in nm with particles as close as the template allows.",
     "Noise-free (LoG/DoG) or weak-noise (template matching) images; particle spacing >= 6 sigma / template size + 6.",
     "DESIGN.md section 4 C20")
